@@ -249,10 +249,18 @@ Definition spec_calc (d now : Z) (u : usd) : usd :=
 
 Definition spec_tick (k now : Z) (u : usd) : usd := spec_calc (spec_displacement u k) now u.
 
+(* response delay 255: the unit executes the command but does not answer *)
+Definition spec_parse1 (code byte_start : Z) (params : list Z) (u : usd) : usd * outcome :=
+  let '(u', o) := spec_handle code byte_start params u in
+  (u', match o with
+       | OReply r => if delay_multiplier u' =? 255 then OSilent else OReply r
+       | _ => o
+       end).
+
 Definition spec_step (s : sim) (e : event) : sim * option outcome :=
   let '(u, now) := s in
   match e with
-  | ECmd c b p => let '(u', o) := spec_handle c b p u in ((u', now), Some o)
+  | ECmd c b p => let '(u', o) := spec_parse1 c b p u in ((u', now), Some o)
   | ETick k => ((spec_tick k (now + k) u, now + k), None)
   end.
 
@@ -261,4 +269,30 @@ Fixpoint spec_run (s : sim) (h : list event) : sim * list (option outcome) :=
   | [] => (s, [])
   | e :: h' => let '(s1, o) := spec_step s e in
                let '(s2, os) := spec_run s1 h' in (s2, o :: os)
+  end.
+
+(* ---------- a line of units ---------- *)
+(* a broadcast command is executed by every unit of the line and answered by none; an unknown code
+   is rejected *)
+Definition spec_lstep (s : lstate) (e : levent) : lstate * option outcome :=
+  let '(us, now) := s in
+  match e with
+  | LUni j c b p =>
+      match nth_error us j with
+      | Some u => let '(u', o) := spec_parse1 c b p u in ((upd_nth us j u', now), Some o)
+      | None => ((us, now), Some OException)
+      end
+  | LBcast c b p =>
+      match decode c p with
+      | DUnknown => ((us, now), Some OValueError)
+      | _ => ((map (fun u => fst (spec_handle c b p u)) us, now), Some OSilent)
+      end
+  | LTick k => ((map (spec_tick k (now + k)) us, now + k), None)
+  end.
+
+Fixpoint spec_lrun (s : lstate) (h : list levent) : lstate * list (option outcome) :=
+  match h with
+  | [] => (s, [])
+  | e :: h' => let '(s1, o) := spec_lstep s e in
+               let '(s2, os) := spec_lrun s1 h' in (s2, o :: os)
   end.
